@@ -21,7 +21,7 @@ RULE = (
     "Non-trivial = the statement failed and every 'changed nothing' comparison and at least one follow-up comparison was "
     "evaluated; distinct = distinct (state, failing statement, follow-ups). Closed-connection cases enumerate every entry point."
 )
-REQUIRED = ["cmp_exception", "cmp_sqlstate_lifecycle", "cmp_unchanged", "cmp_txn_still_open", "cmp_followup_twin", "cmp_closed"]
+REQUIRED = ["cmp_exception", "cmp_sqlstate_lifecycle", "cmp_unchanged", "cmp_txn_still_open", "cmp_followup_twin", "cmp_closed", "failing_describe"]
 ASSUMPTIONS = [
     "allowed (errno, sqlstate) pairs are those the property lists; a specific pair is required only where the cause fixes it "
     "(unknown table/view -> 2003/42S02, no current database -> 90105, no current schema -> 90106)",
@@ -142,6 +142,12 @@ def gen_cases(tier: str, seed: int):
     for i in range(len(FAILS)):
         if FAILS[i][2] not in ("ctx", "ctx1"):
             yield {"part": "nop_after_failure", "fail": i}
+    # the failing queries handed to cursor.describe() instead of execute(): same error, same cursor.sqlstate life cycle
+    for i in range(len(FAILS)):
+        if FAILS[i][1].lstrip().upper().startswith(("SELECT", "WITH")):
+            for ctx in ("full", "none"):
+                yield {"part": "fail", "fail": i, "ctx": ctx, "txn": False, "vars": ctx == "full", "via": "describe",
+                       "follow": [[r.randrange(len(FOLLOW)), 900 + i * 10 + k] for k in range(2)]}
     n = 1500 if tier == "quick" else 18000
     # every failing statement at least once in each context / transaction state, then random
     combos = [(i, ctx, txn) for i in range(len(FAILS)) for ctx in ("full", "db", "none") for txn in (False, True)]
@@ -151,7 +157,7 @@ def gen_cases(tier: str, seed: int):
             i, ctx, txn = combos[j]
         else:
             i, ctx, txn = r.randrange(len(FAILS)), r.choice(["full", "full", "db", "none"]), r.random() < 0.4
-        yield {"part": "fail", "fail": i, "ctx": ctx, "txn": txn, "vars": r.random() < 0.5,
+        yield {"part": "fail", "fail": i, "ctx": ctx, "txn": txn, "vars": r.random() < 0.5, "via": "describe" if r.random() < 0.15 else "execute",
                "follow": [[r.randrange(len(FOLLOW)), 1000 + j * 10 + k] for k in range(r.randint(1, 5))]}
 
 
@@ -226,7 +232,16 @@ def run_case(case: dict, env: core.Env) -> None:
                 cur.execute("INSERT INTO DB1.S1.ORDERS VALUES (50, 'uncommitted')")
         cur = conn.cursor()
         before = (core.snapshot(fs), core.session_state(conn), _own_view(conn), core.engine_context(conn))
-        out = core.run_stmt(cur, sql, PARAMS.get(name))
+        if case.get("via") == "describe" and sql.lstrip().upper().startswith(("SELECT", "WITH")):
+            env.count("failing_describe")
+            out = {"sql": f"describe({sql!r})", "params": PARAMS.get(name)}
+            try:
+                cur.describe(sql, PARAMS.get(name)) if PARAMS.get(name) is not None else cur.describe(sql)
+                out["ok"] = True
+            except Exception as e:  # noqa: BLE001
+                out["ok"], out["exc"] = False, core.exc_info(e)
+        else:
+            out = core.run_stmt(cur, sql, PARAMS.get(name))
         env.count("cmp_exception")
         if out["ok"]:
             env.witness(f"C07/statement-succeeded/{name}", f"{sql} (ctx={ctx}) succeeded: {out.get('rows')}")
